@@ -5,7 +5,9 @@
    off-by-one in a bound of the source makes these proofs fail.  The arithmetic operators are covered in
    C06_source_level.v.  Statements only; proofs in Proofs/GenFnProofs.v and Proofs/SourceLevelProofs.v. *)
 From BV Require Import Base Term Expr DTerm Symbols DEval GoSem GeneratedFn.
-From BV Require Import GenFnProofs SourceLevelProofs.
+From BV Require Import ExprProofs SymbolsProofs DEvalProofs GenFnProofs SourceLevelProofs.
+From BV Require Import GenFnEvalProofs SourceLevelEvalProofs GenFnEvalStaticProofs SourceLevelEvalStaticProofs
+  SourceLevelEvalClosedProofs SourceLevelEvalStaticClosedProofs.
 
 Theorem C10_source_str_total : forall (t : table) (i : N),
   in_u64 i -> len_ok t -> exists s, go_SymbolTable_Str t i = Ok s.
@@ -28,6 +30,22 @@ Example C10_source_boundary_indexes :
   go_SymbolTable_Var [] 4294967295%N = Ok (invalid_variable 4294967295).
 Proof. vm_compute. repeat split. Qed.
 
+(* The expression stack machine, as regenerated from the text of Expression.Evaluate with stack.Push/Pop and the
+   dispatch over all operators: no op sequence an attacker can put in a block — ill-typed, malformed, too deep,
+   referring to unknown variables or to symbols outside the table — makes it panic.  [static_pre] only says that
+   the decoded constants are inside the ranges of the Go types (which the decoder guarantees: int64, uint64,
+   uint32 fields) and bounds the sizes (B * 2^(#Add + #Union) < 2^63: the memory a run could need). *)
+Theorem C10_source_evaluate_total : forall rx (b : dbindings) (t : table) (e : dexpr) (n : N),
+  rx_uniform rx -> static_pre t e b ->
+  snd (go_Expression_Evaluate rx e b t) <> Panic n.
+Proof. exact src_evaluate_total_static_closed. Qed.
+Theorem C10_source_evaluate_is_model : forall rx (b : dbindings) (t : table) (e : dexpr),
+  rx_uniform rx -> static_pre t e b ->
+  go_Expression_Evaluate rx e b t = eval_D rx t e b.
+Proof. exact src_evaluate_is_model_static_closed. Qed.
+
+Print Assumptions C10_source_evaluate_total.
+Print Assumptions C10_source_evaluate_is_model.
 Print Assumptions C10_source_str_total.
 Print Assumptions C10_source_var_total.
 Print Assumptions C10_source_str_is_model.
